@@ -227,7 +227,9 @@ func (c *Campaign) one(cs *Case, root *Root, s *search.Search, q Request, lc *ev
 		return
 	}
 	cs.Requests = append(cs.Requests, q)
-	c.R.Current(wk, cs)
+	// crash witness: an immutable summary (the heartbeat goroutine reads it concurrently)
+	c.R.Current(wk, map[string]any{"kind": cs.Kind, "root_kind": cs.RootKind, "start_fen": cs.Start, "history_plies": len(cs.Moves), "tt_bytes": cs.TTBytes,
+		"warm_up_fen": cs.WarmFEN, "planted_entries": len(cs.Poison), "requests_since_clear": len(cs.Requests), "current_request": q})
 	if len(cs.Poison) > 0 {
 		plant(s, root, cs.Poison)
 		lc.C["searches_on_poisoned_table"]++
